@@ -1,0 +1,40 @@
+//go:build verif
+
+package freelist
+
+import "sort"
+
+// VerifSnapshot returns the free ids, the pending records (freeing txid,
+// page id, allocating txid or 0) and the registered reader ids.
+func VerifSnapshot(f Interface) (free []uint64, pending [][3]uint64, readers []uint64) {
+	free = []uint64{}
+	pending = [][3]uint64{}
+	readers = []uint64{}
+	for _, id := range f.freePageIds() {
+		free = append(free, uint64(id))
+	}
+	sort.Slice(free, func(i, j int) bool { return free[i] < free[j] })
+	for tid, txp := range f.pendingPageIds() {
+		for i, id := range txp.ids {
+			pending = append(pending, [3]uint64{uint64(tid), uint64(id), uint64(txp.alloctx[i])})
+		}
+	}
+	sort.Slice(pending, func(i, j int) bool {
+		if pending[i][1] != pending[j][1] {
+			return pending[i][1] < pending[j][1]
+		}
+		return pending[i][0] < pending[j][0]
+	})
+	switch t := f.(type) {
+	case *array:
+		for _, r := range t.readonlyTXIDs {
+			readers = append(readers, uint64(r))
+		}
+	case *hashMap:
+		for _, r := range t.readonlyTXIDs {
+			readers = append(readers, uint64(r))
+		}
+	}
+	sort.Slice(readers, func(i, j int) bool { return readers[i] < readers[j] })
+	return
+}
